@@ -46,6 +46,7 @@ func init() {
 			{ID: "C19-R20", Title: "module builtins call the Go function they are named after", Floor: 30, Run: moduleFunctionsCallTheirNamesake},
 			{ID: "C19-R21", Title: "encoded text is not edited", Floor: 1, Run: encodedTextIsNotEdited},
 			{ID: "C19-R22", Title: "script-supplied sizes are tested before make (shared with C16-R27)", Floor: 3, Run: scriptSizesAreTestedBeforeMake},
+			{ID: "C19-R23", Title: "methods of strings and byte slices call their Go namesake", Floor: 10, Run: methodsCallTheirGoNamesake},
 		},
 	})
 }
